@@ -287,6 +287,7 @@ OUTSIDE = [
     ("foot-width", "footnote", dict(col_rel_width=None)),
     ("foot-width", "source", dict(as_table=True, col_rel_width=None)),
     ("no-columns", "body", dict(page_by=["g", "a", "b"])),
+    ("no-columns", "df", dict(cols=[], rows=[])),
     ("empty-header", "header", dict(text=[])),
     ("short-widths", "body", dict(col_rel_width=[1, 1])),
     ("short-widths", "header", dict(text=["G", "A", "B", "C"])),
@@ -298,6 +299,8 @@ def _outside_worker(case):
     try:
         spec = copy.deepcopy(BASE)
         (spec["headers"][0] if comp == "header" else spec[comp]).update(kw)
+        if comp == "df":
+            spec["headers"] = "default"
         try:
             with contextlib.redirect_stdout(io.StringIO()):
                 doc = docgen.build(spec)
